@@ -14,7 +14,8 @@ RULE = ('cases: (i) C01 strings (molecule x partition x rendering), (ii) multi-l
         'name, same internal bonds, equal orders for non-aromatic bonds, equal per-atom annotations), every '
         'member reports that fragment name; virtual nodes have no members; atoms annotated by the generator carry '
         'the written annotation (independent of the template reader); every case is resolved a second time '
-        'through from_graph with other node keys and shuffled insertion order. non-trivial = a fragment name used '
+        'through from_graph with other node keys and shuffled insertion order; base graphs with fragment-less nodes '
+        'also as a graph object that was resolved before with fragments for those nodes. non-trivial = a fragment name used '
         '>=2 times, >=2 fragments of a dedicated/shared-atom string, or >=2 levels; distinct = string')
 ASSUMPTIONS = ['templates are read through cgsmiles\' own fragment reader (reader defects are the subject of C04/C13)',
                'for atoms merged by the shared-atom operator name/charge/annotation comparisons are skipped '
@@ -111,6 +112,24 @@ def graph_variant(case):
         [mp[k] for k in order]
 
 
+def reused_graph_variant(case):
+    """a base-graph object that was resolved before with a fragment set that DOES define the names of the
+    fragment-less (virtual) nodes V/W, handed to from_graph again with the fragments of the case"""
+    import re
+    from cgsmiles import MoleculeResolver, read_cgsmiles
+    blocks = re.findall(r"\{[^\}]+\}", case['input'])
+    g = sut(read_cgsmiles, blocks[0])
+    names = {k: d['fragname'] for k, d in g.nodes(data=True)}
+    extra = ',#V=O,#W=N}' if case['last_all_atom'] else ',#V=[#q],#W=[#r][#r]}'
+    try:
+        MoleculeResolver.from_graph(blocks[1][:-1] + extra, g, last_all_atom=case['last_all_atom'], legacy=case['legacy']).resolve_all()
+    except Exception:
+        return None         # the first use is only there to leave its traces on the graph object
+    for k in g.nodes:
+        g.nodes[k]['fragname'] = names[k]
+    return MoleculeResolver.from_graph(blocks[1], g, last_all_atom=case['last_all_atom'], legacy=case['legacy'])
+
+
 def oracle(case):
     def step(lv, cg, fine, templates, all_atom):
         invariants.check_mapping(cg, fine, templates, all_atom, 'level %d: ' % lv)
@@ -144,3 +163,16 @@ def oracle(case):
             raise
         all_atom = case['last_all_atom'] and lv == r.resolutions - 1
         invariants.check_mapping(cg, fine, r.fragment_dicts[lv], all_atom, 'from_graph (node keys in insertion order %r) level %d: ' % (keys, lv))
+    base = case['input'][:case['input'].index('}') + 1]
+    if case['nlevels'] == 1 and ('[#V]' in base or '[#W]' in base):
+        r = sut(reused_graph_variant, case)
+        if r is None:
+            return
+        note('base_graph_object_reused_virtual_names_defined_before')
+        try:
+            cg, fine = sut(r.resolve)
+        except SutError as e:
+            if case['kind'] == 'fragset' and e.type == 'SyntaxError' and AROMATIC_REJECT in e.msg:
+                return
+            raise
+        invariants.check_mapping(cg, fine, r.fragment_dicts[0], case['last_all_atom'], 'from_graph on a reused base graph object: ')
